@@ -7,6 +7,7 @@ import (
 	"runtime"
 	"sort"
 	"strings"
+	"sync"
 	"syscall"
 	"time"
 
@@ -53,6 +54,49 @@ type IngScenario struct {
 	Poison      int    `json:"poison,omitempty"`       // client index+1 whose destination refuses sends
 	Perturb     uint64 `json:"perturb,omitempty"`      // seed of extra yields at socket operations
 	ClientRate  int    `json:"client_rate,omitempty"`
+	MaxConcurrent int  `json:"max_concurrent,omitempty"` // resolver fan-out budget (per-zone quota = max(n/16, 16))
+	// stream clients (the owned TCP listener is started when there is at least one)
+	Conns []IngConn `json:"conns,omitempty"`
+}
+
+// IngConn is one TCP client: it dials, pipelines its frames, reads replies (possibly late,
+// possibly through a small window) and closes.
+type IngConn struct {
+	Client      int        `json:"c"`
+	AtMs        int        `json:"at"`
+	Frames      []IngFrame `json:"frames"`
+	Window      int        `json:"window,omitempty"`     // bytes the client lets pile up unread (0 = 64 KiB)
+	ReadDelayMs int        `json:"read_delay,omitempty"` // the client starts reading this late
+	CloseAtMs   int        `json:"close_at,omitempty"`   // after dialling; 0 = after everything
+	Reset       bool       `json:"reset,omitempty"`      // tear down instead of closing
+}
+
+type IngFrame struct {
+	AfterMs int   `json:"after"` // after the previous frame (or the dial)
+	Op      IngOp `json:"op"`
+	Split   int   `json:"split,omitempty"` // >0: written in two pieces, the first this many bytes long
+}
+
+// ingFrameRec is what happened to one frame.
+type ingFrameRec struct {
+	Conn, Seq int
+	Idx       int // global token
+	Op        IngOp
+	Raw       []byte
+	QName     string
+	WellFormed bool
+	SentAt    time.Duration
+	Written   bool
+}
+
+type ingConnRec struct {
+	Conn     IngConn
+	Frames   []*ingFrameRec
+	Replies  [][]byte        // whole frames received, in order
+	ReplyAt  []time.Duration
+	Partial  int             // bytes of an incomplete frame at EOF
+	ReadErr  string
+	ClosedAt time.Duration
 }
 
 // name table: index -> (zone family, host number)
@@ -63,10 +107,15 @@ const (
 	ingNameGarb  = 32 // garbK.garbzone.test. (garbage / wrong question / truncation+reset)
 	ingNameNX    = 36 // nxK.uniqzone.test.
 	ingNameBig   = 40 // big.uniqzone.test. TXT (does not fit 512)
-	ingNameCount = 41
+	ingNameHuge  = 41 // huge.uniqzone.test. TXT (larger than the stream path's 8 KiB staging buffer)
+	ingNameCount = 42
+	ingNameWild  = 1000 // + k: wK.slowzone.test., answered from a wildcard (distinct lookups in one slow zone)
 )
 
 func ingName(i int) string {
+	if i >= ingNameWild {
+		return fmt.Sprintf("w%d.slowzone.test.", i-ingNameWild) // any number of distinct names in the slow zone
+	}
 	switch {
 	case i < ingNameSlow:
 		return fmt.Sprintf("host%d.uniqzone.test.", i)
@@ -78,8 +127,10 @@ func ingName(i int) string {
 		return fmt.Sprintf("garb%d.garbzone.test.", i-ingNameGarb)
 	case i < ingNameBig:
 		return fmt.Sprintf("nx%d.uniqzone.test.", i-ingNameNX)
-	default:
+	case i == ingNameBig:
 		return "big.uniqzone.test."
+	default:
+		return "huge.uniqzone.test."
 	}
 }
 
@@ -114,9 +165,19 @@ func ingSpecZones() []world.ZoneSpec {
 		recs = append(recs, fmt.Sprintf("host%d.uniqzone.test. 300 IN A %s", i, ingHostAddr(i)))
 	}
 	recs = append(recs, fmt.Sprintf("big.uniqzone.test. 300 IN TXT \"%s\" \"%s\" \"%s\" \"%s\"", strings.Repeat("a", 250), strings.Repeat("b", 250), strings.Repeat("c", 250), strings.Repeat("d", 250)))
+	{
+		var parts []string
+		for i := 0; i < 44; i++ {
+			parts = append(parts, fmt.Sprintf("\"%s\"", strings.Repeat(string(rune('a'+i%26)), 250)))
+		}
+		recs = append(recs, "huge.uniqzone.test. 300 IN TXT "+strings.Join(parts, " "))
+	}
 	var slow, garb []string
 	for i := 0; i < 4; i++ {
 		slow = append(slow, fmt.Sprintf("slow%d.slowzone.test. 300 IN A 10.8.0.%d", i, i+1))
+		if i == 0 {
+			slow = append(slow, "*.slowzone.test. 300 IN A 10.8.1.1")
+		}
 		garb = append(garb, fmt.Sprintf("garb%d.garbzone.test. 300 IN A 10.9.0.%d", i, i+1))
 	}
 	return []world.ZoneSpec{
@@ -144,6 +205,10 @@ type ingOpRec struct {
 type ingRun struct {
 	sc       *IngScenario
 	recs     []*ingOpRec
+	conns    []*ingConnRec
+	probes   []string // post-load probe results
+	probeFail string
+	idleShed  string
 	stray    []simsock.Sent // datagrams attributable to no operation
 	strayWhy []string
 	g        *world.Ing
@@ -166,7 +231,11 @@ func errnoOf(s string) syscall.Errno {
 }
 
 func ingBuild(op IngOp, idx int) (raw []byte, qname string, wellFormed bool) {
-	name := ingCase(ingName(op.Name%ingNameCount), idx)
+	nidx := op.Name
+	if nidx < ingNameWild {
+		nidx %= ingNameCount
+	}
+	name := ingCase(ingName(nidx), idx)
 	qt := op.Type
 	if qt == 0 {
 		qt = dns.TypeA
@@ -212,9 +281,13 @@ func execIng(sc *IngScenario, tr *kit.Trace, res *kit.Result) *ingRun {
 		to = 6
 	}
 	x.timeout = time.Duration(to) * time.Second
-	spec := &world.Spec{Zones: ingSpecZones(), Cfg: world.CfgSpec{DNSSECOff: true, QueryTimeoutS: to, TimeoutMs: 1500, ClientRate: sc.ClientRate}}
+	spec := &world.Spec{Zones: ingSpecZones(), Cfg: world.CfgSpec{DNSSECOff: true, QueryTimeoutS: to, TimeoutMs: 1500, ClientRate: sc.ClientRate, MaxConcurrent: sc.MaxConcurrent}}
 	before := server.VerifUDPCounters()
-	g, err := world.NewIng(spec, sc.Ing, 10, tr)
+	ingSpec := sc.Ing
+	if len(sc.Conns) > 0 {
+		ingSpec.TCP = true
+	}
+	g, err := world.NewIng(spec, ingSpec, 10, tr)
 	if err != nil {
 		res.Fail("ING/harness", "listener: %v", err)
 		return nil
@@ -295,6 +368,92 @@ func execIng(sc *IngScenario, tr *kit.Trace, res *kit.Result) *ingRun {
 	}
 	sort.SliceStable(order, func(a, b int) bool { return ops[order[a]].AtMs < ops[order[b]].AtMs })
 	x.recs = make([]*ingOpRec, len(ops))
+	// stream clients run as actors beside the datagram load
+	var cmu sync.Mutex
+	token := len(ops)
+	for ci, cn := range sc.Conns {
+		cr := &ingConnRec{Conn: cn}
+		for fi, f := range cn.Frames {
+			raw, qn, wf := ingBuild(f.Op, token)
+			cr.Frames = append(cr.Frames, &ingFrameRec{Conn: ci, Seq: fi, Idx: token, Op: f.Op, Raw: raw, QName: qn, WellFormed: wf})
+			token++
+		}
+		x.conns = append(x.conns, cr)
+		go func(cr *ingConnRec) {
+			time.Sleep(time.Duration(cr.Conn.AtMs) * time.Millisecond)
+			dialAt := g.Now()
+			c := g.DialTCP(ingClientAddr(cr.Conn.Client), cr.Conn.Window)
+			go func() { // reader
+				if cr.Conn.ReadDelayMs > 0 {
+					time.Sleep(time.Duration(cr.Conn.ReadDelayMs) * time.Millisecond)
+				}
+				var buf []byte
+				tmp := make([]byte, 4096)
+				for {
+					n, err := c.Read(tmp)
+					cmu.Lock()
+					buf = append(buf, tmp[:n]...)
+					for len(buf) >= 2 {
+						l := int(buf[0])<<8 | int(buf[1])
+						if len(buf) < 2+l {
+							break
+						}
+						cr.Replies = append(cr.Replies, append([]byte(nil), buf[2:2+l]...))
+						cr.ReplyAt = append(cr.ReplyAt, g.Now())
+						buf = buf[2+l:]
+					}
+					if err != nil {
+						cr.Partial = len(buf)
+						cr.ReadErr = err.Error()
+						cmu.Unlock()
+						return
+					}
+					cmu.Unlock()
+				}
+			}()
+			for _, f := range cr.Frames {
+				time.Sleep(time.Duration(cr.Conn.Frames[f.Seq].AfterMs) * time.Millisecond)
+				if cr.Conn.CloseAtMs > 0 && g.Now()-dialAt >= time.Duration(cr.Conn.CloseAtMs)*time.Millisecond {
+					break
+				}
+				frame := append([]byte{byte(len(f.Raw) >> 8), byte(len(f.Raw))}, f.Raw...)
+				cmu.Lock()
+				f.SentAt = g.Now()
+				cmu.Unlock()
+				_ = c.SetWriteDeadline(time.Now().Add(3 * time.Second))
+				var werr error
+				if sp := cr.Conn.Frames[f.Seq].Split; sp > 0 && sp < len(frame) {
+					if _, werr = c.Write(frame[:sp]); werr == nil {
+						time.Sleep(20 * time.Millisecond)
+						_, werr = c.Write(frame[sp:])
+					}
+				} else {
+					_, werr = c.Write(frame)
+				}
+				cmu.Lock()
+				f.Written = werr == nil
+				cmu.Unlock()
+				if werr != nil {
+					break
+				}
+			}
+			if cr.Conn.CloseAtMs > 0 {
+				if d := time.Duration(cr.Conn.CloseAtMs)*time.Millisecond - (g.Now() - dialAt); d > 0 {
+					time.Sleep(d)
+				}
+			} else {
+				time.Sleep(x.timeout + 4*time.Second)
+			}
+			if cr.Conn.Reset {
+				c.Reset()
+			} else {
+				_ = c.Close()
+			}
+			cmu.Lock()
+			cr.ClosedAt = g.Now()
+			cmu.Unlock()
+		}(cr)
+	}
 	for _, i := range order {
 		op := ops[i]
 		at := loadStart + time.Duration(op.AtMs)*time.Millisecond
@@ -309,16 +468,62 @@ func execIng(sc *IngScenario, tr *kit.Trace, res *kit.Result) *ingRun {
 	}
 	x.loadEnd = g.Now()
 	kit.SleepSettle(x.timeout + 6*time.Second)
+	// let every stream client finish (dial + frames + its closing rule)
+	for _, cn := range sc.Conns {
+		end := time.Duration(cn.AtMs) * time.Millisecond
+		for _, f := range cn.Frames {
+			end += time.Duration(f.AfterMs+25) * time.Millisecond
+		}
+		if cn.CloseAtMs > 0 {
+			end = time.Duration(cn.AtMs+cn.CloseAtMs) * time.Millisecond
+		}
+		end += x.timeout + 12*time.Second
+		if d := loadStart + end - g.Now(); d > 0 {
+			kit.SleepSettle(d)
+		}
+	}
 	// attribute
 	out := append([]simsock.Sent(nil), g.K.Out[warmOut:]...)
 	for _, s := range out {
-		if s.To == warmClient {
+		if s.To == warmClient || s.To == netip.MustParseAddrPort("10.3.0.9:39998") {
 			continue
 		}
 		why := x.attribute(s)
 		if why != "" {
 			x.stray = append(x.stray, s)
 			x.strayWhy = append(x.strayWhy, why)
+		}
+	}
+	// after the load: the zones that can answer must answer again (no leaked slots, nothing wedged)
+	probeClient := netip.MustParseAddrPort("10.3.0.9:39998")
+	for pi, name := range []string{"host3.uniqzone.test.", "probe.slowzone.test."} {
+		rc := -1
+		for attempt := 0; attempt < 2 && rc == -1; attempt++ {
+			m := new(dns.Msg)
+			m.SetQuestion(name, dns.TypeA)
+			m.Id = uint16(61000 + pi*2 + attempt)
+			b, _ := m.Pack()
+			before := len(g.K.Out)
+			fullBefore := server.VerifUDPCounters()["drop_full"]
+			g.Send(0, probeClient, b)
+			kit.SleepSettle(x.timeout + 2*time.Second)
+			for _, s := range g.K.Out[before:] {
+				if s.To == probeClient && len(s.Data) > 3 && int(s.Data[0])<<8|int(s.Data[1]) == int(m.Id) {
+					rc = int(s.Data[3] & 0xf)
+				}
+			}
+			leased, inflight := server.VerifUDPState(g.L)
+			shedNow := server.VerifUDPCounters()["drop_full"] - fullBefore
+			tr.Add("probe %s attempt %d -> rcode %d (leased %d inflight %d, shed during the probe %d)", name, attempt, rc, leased, inflight, shedNow)
+			if rc == -1 && attempt == 0 && shedNow > 0 && inflight == 0 {
+				// the lone datagram was discarded as "ring full" by a reader that had parked in its
+				// shedding read while the ring WAS full, long before this datagram arrived
+				x.idleShed = fmt.Sprintf("%s: a lone query sent %v after the last load packet, with nothing in flight, was discarded by the ingress as overload (drop_full +%d)", name, g.Now()-x.loadEnd, shedNow)
+			}
+		}
+		x.probes = append(x.probes, fmt.Sprintf("%s=%d", name, rc))
+		if rc != dns.RcodeSuccess {
+			x.probeFail = fmt.Sprintf("%s answered rcode %d", name, rc)
 		}
 	}
 	x.shutErr = g.Shutdown()
@@ -331,6 +536,14 @@ func execIng(sc *IngScenario, tr *kit.Trace, res *kit.Result) *ingRun {
 	}
 	for _, rec := range x.recs {
 		tr.Add("op %d t=%v c%d s%d %s %s id=%d queued=%v replies=%d%s", rec.Idx, rec.SentAt-loadStart, rec.Op.Client, rec.Op.Sock, rec.Op.Kind, rec.QName, rec.Op.ID, rec.Queued, len(rec.Replies), ingReplyTimes(rec, loadStart))
+	}
+	for ci, cr := range x.conns {
+		tr.Add("conn %d c%d at=%dms frames=%d window=%d readdelay=%d closeat=%d reset=%v -> %d whole replies, %d stray bytes, closed at %v", ci, cr.Conn.Client, cr.Conn.AtMs, len(cr.Frames), cr.Conn.Window, cr.Conn.ReadDelayMs, cr.Conn.CloseAtMs, cr.Conn.Reset, len(cr.Replies), cr.Partial, cr.ClosedAt)
+		for _, f := range cr.Frames {
+			tr.Add("  frame %d.%d %s %s id=%d written=%v", ci, f.Seq, f.Op.Kind, f.QName, f.Op.ID, f.Written)
+		}
+		res.Probes["tcp:connections"]++
+		res.Probes["tcp:replies"] += len(cr.Replies)
 	}
 	tr.Add("kernel batchrecv=%d single=%d batchsend=%d direct=%d maxbatch=%d kdrops=%d counters=%v slabcap=%d", g.K.BatchRecv, g.K.SingleRecv, g.K.BatchSends, g.K.DirectSends, g.K.MaxBatch, g.K.KernelDrops, ingCounterStr(x.counters), x.slabCap)
 	res.SimTime = g.Now()
@@ -571,6 +784,15 @@ func genIng(r *kit.RNG, flavour string) *IngScenario {
 		}
 		sc.Ops = append(sc.Ops, op)
 	}
+	if flavour == "c11" && r.Chance(0.3) {
+		// many distinct lookups in one slow zone at once: past the per-zone in-flight quota
+		nb := r.Range(18, 48)
+		bat := r.Intn(at + 1)
+		sc.MaxConcurrent = kit.Pick(r, []int{64, 256, 0})
+		for i := 0; i < nb; i++ {
+			sc.Ops = append(sc.Ops, IngOp{AtMs: bat + r.Intn(3), Client: r.Intn(nclients), Sock: r.Intn(2), Name: ingNameWild + r.Intn(200), ID: uint16(r.Range(1, 3))})
+		}
+	}
 	switch r.Intn(8) {
 	case 0:
 		sc.PartialSend = r.Range(1, 3)
@@ -587,13 +809,67 @@ func genIng(r *kit.RNG, flavour string) *IngScenario {
 	if r.Chance(0.5) {
 		sc.Perturb = r.Uint64() | 1
 	}
+	// stream clients
+	if r.Chance(0.55) {
+		for ci, nc := 0, r.Range(1, 3); ci < nc; ci++ {
+			cn := IngConn{Client: r.Intn(nclients), AtMs: r.Intn(at + 500)}
+			nf := r.Range(1, 7)
+			pipelined := r.Chance(0.7)
+			for fi := 0; fi < nf; fi++ {
+				f := IngFrame{Op: IngOp{Client: cn.Client, Name: kit.Pick(r, pool), ID: uint16(r.Range(1, 3))}}
+				if !pipelined {
+					f.AfterMs = kit.Pick(r, []int{1, 30, 400, 2500})
+				} else if fi == 0 {
+					f.AfterMs = r.Intn(50)
+				}
+				if r.Chance(0.5) {
+					f.Op.EDNS = kit.Pick(r, []int{512, 1232, 4096})
+					f.Op.DO = r.Chance(0.3)
+				}
+				if r.Chance(0.2) {
+					f.Op.Name, f.Op.Type = kit.Pick(r, []int{ingNameBig, ingNameHuge, ingNameHuge}), dns.TypeTXT
+					f.Op.EDNS = 4096
+				}
+				if r.Chance(0.06) {
+					f.Op.Kind = kit.Pick(r, []string{"response", "notimp", "formerr", "badbody"})
+				}
+				if r.Chance(0.25) {
+					f.Split = r.Range(1, 20)
+				}
+				cn.Frames = append(cn.Frames, f)
+			}
+			switch r.Intn(8) {
+			case 0:
+				cn.Window = kit.Pick(r, []int{64, 512, 2048})
+			case 1:
+				cn.ReadDelayMs = kit.Pick(r, []int{500, 3000})
+			case 2:
+				cn.CloseAtMs = r.Range(1, 3000)
+			case 3:
+				cn.CloseAtMs, cn.Reset = r.Range(1, 3000), true
+			}
+			sc.Conns = append(sc.Conns, cn)
+		}
+	}
 	return sc
 }
 
 func shrinkIng(sc any, fails func(any) bool) any {
 	cur := sc.(*IngScenario)
 	budget := 120
-	cur.Ops = kit.DDMin(cur.Ops, &budget, func(xs []IngOp) bool { c := *cur; c.Ops = xs; return len(xs) > 0 && fails(&c) })
+	cur.Ops = kit.DDMin(cur.Ops, &budget, func(xs []IngOp) bool { c := *cur; c.Ops = xs; return (len(xs) > 0 || len(c.Conns) > 0) && fails(&c) })
+	cur.Conns = kit.DDMin(cur.Conns, &budget, func(xs []IngConn) bool { c := *cur; c.Conns = xs; return fails(&c) })
+	for ci := range cur.Conns {
+		ci := ci
+		fr := kit.DDMin(cur.Conns[ci].Frames, &budget, func(xs []IngFrame) bool {
+			c := *cur
+			c.Conns = append([]IngConn(nil), cur.Conns...)
+			c.Conns[ci].Frames = xs
+			return len(xs) > 0 && fails(&c)
+		})
+		cur.Conns = append([]IngConn(nil), cur.Conns...)
+		cur.Conns[ci].Frames = fr
+	}
 	cur.Warm = kit.DDMin(cur.Warm, &budget, func(xs []int) bool { c := *cur; c.Warm = xs; return fails(&c) })
 	for _, f := range []func(c *IngScenario){
 		func(c *IngScenario) { c.Perturb = 0 },
